@@ -52,7 +52,7 @@ def plan(tier, seed):
         }
     return {
         "nshards": 16,
-        "params": {"soft_s": 40, "max_programs": 400, "min_programs": 6},
+        "params": {"soft_s": 35, "max_programs": 400, "min_programs": 4},
         "hard_timeout_s": 400,
     }
 
@@ -157,11 +157,10 @@ def _position_of(ir, key):
     n = 0
     while n < len(path) and path[n][0] in ("body", "orelse"):
         n += 1
-    stmt = resolve(ir, path[:n])
-    pos = f"{type(stmt).__name__}.{path[n][0]}"
+    # coarse on purpose: one mechanism should give few signatures
     if any(a == "orelse" for a, _ in path[:n]):
-        pos += "@orelse"
-    return pos
+        return "orelse"
+    return str(path[n][0]) if n < len(path) else "?"
 
 
 def _key_json(key):
@@ -1000,6 +999,12 @@ def process_program(W, src, mod, rng, budget_patterns=60, procname="main"):
             W.stat("nav_law_evaluations", n)
             W.stat("evaluations", n)
     W.stat("nav_positions", npos)
+    if ctx is not None and not getattr(W, "_nav_sampled", False) and npos > 40:
+        W._nav_sampled = True
+        ctx.sample({"kind": "nav", "main": src[src.index("@proc\ndef main"):],
+                    "cursor_positions": npos, "law_evaluations": sum(
+                        n for k, n in counts.items() if not k.startswith("positions_")),
+                    "violations": len(nviol)}, limit=1)
     if ctx is not None:
         ctx.distinct(common.jhash(["nav", shape]), npos > 3)
     for v in nviol:
@@ -1362,8 +1367,8 @@ def finish(agg, tier):
     quick = tier != "thorough"
     # about a third of what a run on a heavily loaded machine reaches
     need = {
-        "programs": 60 if quick else 350,
-        "pairs": 3000 if quick else 35000,
+        "programs": 40 if quick else 350,
+        "pairs": 2500 if quick else 35000,
         "pairs_with_sure_match": 1000 if quick else 25000,
         "pairs_no_match": 300 if quick else 10000,
         "pairs_sure_no_match": 150 if quick else 8000,
@@ -1371,12 +1376,12 @@ def finish(agg, tier):
         "select_out_of_range": 300 if quick else 15000,
         "pairs_scope_stmt": 200 if quick else 4000,
         "pairs_scope_expr": 30 if quick else 800,
-        "nav_law_evaluations": 20000 if quick else 120000,
-        "nav_positions": 2000 if quick else 15000,
-        "nav.edge_next": 200 if quick else 1200,
-        "nav.edge_prev": 200 if quick else 1200,
-        "nav.expand_edge": 500 if quick else 4000,
-        "nav.child_orelse": 20 if quick else 140,
+        "nav_law_evaluations": 12000 if quick else 120000,
+        "nav_positions": 1500 if quick else 15000,
+        "nav.edge_next": 120 if quick else 1200,
+        "nav.edge_prev": 120 if quick else 1200,
+        "nav.expand_edge": 400 if quick else 4000,
+        "nav.child_orelse": 12 if quick else 140,
     }
     inconc = []
     for k, v in need.items():
